@@ -21,7 +21,9 @@ Reply: {"nodes":[per node in document order: {"k":..,"get":ctx|{"e":key}} (set, 
   "spec":[per node: the same record predicted by `ctxAt`/`leafFinal`/`fold`, or null where the prefix of the node
   has an unresolved key], "toks":[per node: the token `tokOf t p` of the dictionary object handed to it,
   [[path], tag]], "redelivered": null | {"nodes": records after `setCtx` with each context of "redeliver" in turn,
-  "raised": per context the key of the LenaKeyError that `_set_context` raised, or null}, "cones":[per node: [["seq", number of earlier children] | ["split"], ..]],
+  "raised": per context the key of the LenaKeyError that `_set_context` raised, or null, "covers": `covers t c` for the
+  last context `c`, "final_last": null, or (if `covers` and different — `reuse_memoryless` refuted) the records of
+  `final t [c]`}, "cones":[per node: [["seq", number of earlier children] | ["split"], ..]],
   "out":{"r":[[data,ctx],..] (`run` on the built state), "ref": `runRef`, "plain": `runPlain`,
   "no_consumer": bool, "linear": `St.linear`, "itemwise": the concatenation of `run` on the one-value flows}
   |{"unmodelled":true}|null} -/
@@ -241,7 +243,17 @@ def handle (j : Json) : Json :=
             (r.1, acc.2 ++ [match r.2 with
               | some e => Json.str (names.getD e ("#" ++ toString e))
               | none => Json.null])) (st, [])
-          Json.mkObj [("nodes", Json.arr (observe n names ok stR).toArray), ("raised", Json.arr raised.toArray)]
+          -- `covers` for the last delivered context, and (when it holds) the state `final t [c]` that
+          -- `reuse_memoryless` says the objects are in: `null` = equal to the records of the protocol
+          let obsR := observe n names ok stR
+          let (cov, fin) : Bool × Json := match cs.getLast? with
+            | none => (false, Json.null)
+            | some c =>
+              let cv := covers n t c
+              let f := observe n names ok (final n t [c])
+              (cv, if cv && f != obsR then Json.arr f.toArray else Json.null)
+          Json.mkObj [("nodes", Json.arr obsR.toArray), ("raised", Json.arr raised.toArray),
+                      ("covers", Json.bool cov), ("final_last", fin)]
       -- replies are compact: `null` / "=" stand for "equal to the record in nodes"
       let closed := observe n names ok (final n t [Val.empty n])
       let closedAtL := paths.map (closedAt n names ok t)
